@@ -89,6 +89,8 @@ def main():
             mp = os.path.join(sd, d, 'meta.json')
             if os.path.exists(mp):
                 m = json.load(open(mp))
+                if m.get('retired'):
+                    continue        # no longer a property-breaking change on the current tree (reason in meta.json)
                 items.append({'name': 'seeded/' + d, 'pid': m['property'], 'pids': m.get('checks_to_run'), 'what': m.get('needs', ''),
                               'patch': os.path.join(sd, d, 'patch.diff'), 'source': 'seeded'})
     if args.only:
